@@ -14,6 +14,9 @@ AST (plain nested lists = S-expressions, the same text is sent to the Lean drive
             | ['stack', [expr, ...], nsplits, splitter_tag, appender_tag, stacker_tag, reducer_tag]
                                                                  ensemble.FullStack(*bases, splitter=..., nsplits=...)
             | ['seq', left, right]                               left >> right  (explicit parenthesisation)
+            | ['custom', actor]                                  operator written against the public composition API
+                                                                 (docs/workflow/operator.rst `StatefulMapper`); same meaning
+                                                                 as ['wrap', 'none', actor, actor] (see `to_library`)
 
 Provenance terms (nested tuples built by the symbolic actors, `to_sexp` gives the canonical list form)
 
@@ -194,7 +197,46 @@ def build(ast):
         )
     if kind == 'seq':
         return build(ast[1]) >> build(ast[2])
+    if kind == 'custom':
+        return _custom_mapper()(actor_builder(ast[1]))
     raise ValueError(f'unknown expression kind {kind!r}')
+
+
+def _custom_mapper():
+    """Mapper operator implemented directly on the public composition API, as documented in
+    docs/workflow/operator.rst (`StatefulMapper`); a stateless actor is simply not trained."""
+    if 'custom' in _CACHE:
+        return _CACHE['custom']
+    from forml import flow
+
+    class ApiMapper(flow.Operator):
+        def __init__(self, actor_builder):
+            self._actor_builder = actor_builder
+
+        def compose(self, scope):
+            preceding = scope.expand()
+            mapper_trainmode_train = flow.Worker(self._actor_builder, 1, 1)
+            mapper_trainmode_apply = mapper_trainmode_train.fork()
+            mapper_applymode_apply = mapper_trainmode_train.fork()
+            if self._actor_builder.actor.is_stateful():
+                mapper_trainmode_train.train(preceding.train.publisher, preceding.label.publisher)
+            return preceding.extend(mapper_applymode_apply, mapper_trainmode_apply)
+
+    _CACHE['custom'] = ApiMapper
+    return ApiMapper
+
+
+def to_library(ast):
+    """The same expression with every API-level operator replaced by the library operator of equal meaning
+    (what the Lean model and the oracles are given)."""
+    k = ast[0]
+    if k == 'custom':
+        return ['wrap', NONE, list(ast[1]), list(ast[1])]
+    if k == 'seq':
+        return ['seq', to_library(ast[1]), to_library(ast[2])]
+    if k == 'stack':
+        return ['stack', [to_library(b) for b in ast[1]]] + list(ast[2:])
+    return ast
 
 
 def composition(ast):
@@ -520,6 +562,8 @@ def shape(ast) -> str:
         return 'mr[' + ''.join('S' if a[1] else 's' for a in ast[1]) + ']'
     if k == 'debug':
         return 'dbg'
+    if k == 'custom':
+        return 'api[' + ('S' if ast[1][1] else 's') + ']'
     if k == 'stack':
         return f'stk{ast[2]}[' + ','.join(shape(b) for b in ast[1]) + ']'
     raise ValueError(k)
@@ -556,6 +600,8 @@ def retag(ast, counter=None):
         return ['mapreduce', ms, next(counter)]
     if k == 'debug':
         return ['debug', [next(counter), bool(ast[1][1])], [next(counter), bool(ast[2][1])]]
+    if k == 'custom':
+        return ['custom', [next(counter), bool(ast[1][1])]]
     if k == 'stack':
         tags = [next(counter) for _ in range(4)]
         return ['stack', [retag(b, counter) for b in ast[1]], int(ast[2])] + tags
